@@ -4,7 +4,7 @@ PATCH=$1; shift
 cd /repo || exit 2
 if ! git diff --quiet; then echo "/repo is dirty, refusing"; exit 2; fi
 if ! git apply "$PATCH" 2>/tmp/try_seed_apply.err; then
-  if ! git apply --3way "$PATCH" 2>>/tmp/try_seed_apply.err; then echo "APPLY-FAILED $(head -2 /tmp/try_seed_apply.err | tr '\n' ' ')"; git checkout -q -- .; exit 3; fi
+  if ! git apply --3way "$PATCH" 2>>/tmp/try_seed_apply.err; then echo "APPLY-FAILED"; git reset -q --hard HEAD; exit 3; fi
   git reset -q
 fi
 cd /verif
@@ -12,5 +12,5 @@ for c in "$@"; do
   out=$(./run check $c --tier quick --evidence /tmp/try_seed_evidence.json 2>&1); rc=$?
   echo "$c rc=$rc $(echo "$out" | grep -E "^VIOLATION" | head -2 | cut -c1-300 | tr '\n' '|')"
 done
-git -C /repo checkout -q -- .
+git -C /repo reset -q --hard HEAD
 git -C /repo status --short | head -3
